@@ -22,7 +22,8 @@ for d in sys.argv[1:]:
         det = "error"
     mp = f"seeded/{d}/meta.json"
     meta = json.load(open(mp))
-    meta["check_results"] = {"check": d.split("-")[0], "tier": "quick", "seed": int(os.environ.get("VERIF_SEED", "1")),
+    key = "check_results" if os.environ.get("VERIF_SEED", "1") == "1" else "check_results_seed" + os.environ["VERIF_SEED"]
+    meta[key] = {"check": d.split("-")[0], "tier": "quick", "seed": int(os.environ.get("VERIF_SEED", "1")),
                              "detected": det, "repo_head": head, "verif_head_before_run": vhead,
                              "summary": next((l for l in lines if "seed=" in l), lines[0] if lines else "")[:200]}
     json.dump(meta, open(mp, "w"), indent=1)
@@ -34,11 +35,12 @@ for d in sorted(os.listdir("seeded")):
     meta = json.load(open(mp))
     cr = meta.get("check_results") or {}
     what = meta.get("what_it_needs_to_manifest", "").split("\n")[0][:160].replace("|", "/")
-    rows.append(f"| {d} | {cr.get('check', d.split('-')[0])} | {cr.get('detected', 'not run')} | {cr.get('summary', '').replace('|', '/')} | {what} |")
+    others = ", ".join(f"seed {k[len('check_results_seed'):]}: {v.get('detected')}" for k, v in sorted(meta.items()) if k.startswith("check_results_seed"))
+    rows.append(f"| {d} | {cr.get('check', d.split('-')[0])} | {cr.get('detected', 'not run')} | {others} | {cr.get('summary', '').replace('|', '/')} | {what} |")
 with open("seeded/RESULTS.md", "w") as f:
     f.write("# Seeded changes vs. checks (quick tier)\n\nEach change was produced by an independent sub-agent from the property text only, confirmed "
             "(demo passes on the clean tree, fails with the patch, repository suite still passes), and run against the property's "
             "check in a scratch worktree (tools/trymutant.sh).  `n/a` = the patch no longer applies because a later `fix:` commit rewrote the code.\n\n")
-    f.write("| change | check | detected | check summary | change (first line of the note) |\n|---|---|---|---|---|\n")
+    f.write("| change | check | detected (VERIF_SEED=1) | other seeds | check summary | change (first line of the note) |\n|---|---|---|---|---|---|\n")
     f.write("\n".join(rows) + "\n")
 print(open("seeded/RESULTS.md").read())
